@@ -368,6 +368,9 @@ WHAT = {
     "extended-data-window-adjust-gated-on-transport-thread":
         "Channel._feed_extended credits discarded extended data through _send_user_message on the transport thread "
         "during the exchange",
+    "keepalive-fires-while-need-rekey-pending":
+        "a keepalive was sent from the read loop (timeout in the middle of a packet) while a threshold-triggered "
+        "re-key was pending: the transport thread parks in _send_user_message on the cleared gate",
     "keepalive-gated-on-transport-thread":
         "the keepalive tick (global_request(wait=False) from the packetizer's read loop) goes through "
         "_send_user_message on the transport thread during an exchange not started by the thresholds",
@@ -492,17 +495,21 @@ def tt_lock_frame(t):
     return None
 
 
-def run_cell(role, name, init, rng, user_send=True, op="send", switch="kexinit", split=0):
+def run_cell(role, name, init, rng, user_send=True, op="send", switch="kexinit", split=0, keepalive=False):
     """One held-message cell.  Returns the observation dict (no judgement here)."""
     _, ptype, replies, _ = CELL[name]
     if op == "close" and name == "close":
         replies = False     # the channel is already closed locally: _close_internal has nothing left to send
     s = Sess(role)
     obs = {"role": role, "cell": name, "init": init, "ptype": ptype, "replies": replies, "op": op,
-           "tt_lock_block": None, "switch": switch, "split": split}
+           "tt_lock_block": None, "switch": switch, "split": split,
+           "keepalive": bool(keepalive or name == "keepalive-tick")}
     try:
         A, B = s.A, s.B
-        if name == "keepalive-tick":
+        if split:
+            # the deliberate gap in the delivery eats into the (lowered) gate timeout of waiting user threads
+            A.clear_to_send_timeout = CTS_TIMEOUT + (2.5 if keepalive else 1.0)
+        if name == "keepalive-tick" or keepalive:
             A.set_keepalive(0.3)
         s.mark()
         s.net.hold()
@@ -596,7 +603,9 @@ def run_cell(role, name, init, rng, user_send=True, op="send", switch="kexinit",
             _wait(lambda: any(not tt for t, tt, _, _ in s.gate()), 3.0)
         if name == "keepalive-tick":
             time.sleep(0.7)
-        s.net.release(split=split, gap=0.25 if split else 0.0)
+        # with keepalives on, the gap in the middle of the packet outlasts the keepalive interval too, so the read
+        # loop's timeouts in the middle of a packet reach _check_keepalive with the interval expired
+        s.net.release(split=split, gap=(0.7 if keepalive else 0.25) if split else 0.0)
         # wait for the end of the story: exchange finished, or a party died
         def finished():
             return (21 in s.in_trace() and 21 in [t for t, _ in s.out_trace()]) or not A.is_active() \
@@ -610,11 +619,11 @@ def run_cell(role, name, init, rng, user_send=True, op="send", switch="kexinit",
             f2 = tt_lock_frame(A)
             if f1 is not None and f1 == f2 and not finished():
                 obs["tt_lock_block"] = list(f1)
-        done = _wait(finished, CTS_TIMEOUT + WATCH)
+        done = _wait(finished, A.clear_to_send_timeout + WATCH)
         obs["finished"] = done
         time.sleep(0.05)
         for t in threads:
-            t.join(CTS_TIMEOUT + 3.0)
+            t.join(A.clear_to_send_timeout + 3.0)
         obs["threads_left"] = sum(1 for t in threads if t.is_alive())
         tr = s.out_trace()
         obs["out"] = [t for t, _ in tr]
@@ -767,7 +776,8 @@ def canonical(obs):
 def judge(ctx, obs):
     """The property stated directly on the observation; every failure carries the key of its call site."""
     case = {"role": obs["role"], "cell": obs["cell"], "init": obs["init"], "op": obs.get("op", "send"),
-            "switch": obs.get("switch", "kexinit"), "split": obs.get("split", 0)}
+            "switch": obs.get("switch", "kexinit"), "split": obs.get("split", 0),
+            "keepalive": bool(obs.get("keepalive")) and obs["cell"] != "keepalive-tick"}
     p = obs["ptype"]
     if obs.get("tt_lock_block"):
         ctx.fail("transport-thread-blocked-on-lock-held-across-gated-send",
@@ -798,6 +808,10 @@ def judge(ctx, obs):
                      observed={"type": t, "out": obs["out"], "peer_alive": obs["b_alive"], "peer_exc": obs["b_exc"]})
     for t, _ in obs["tt_waited"]:
         key = KNOWN_GATED.get(p, "transport-thread-waits-on-clear-to-send-type-%d" % p)
+        if t == 80 and obs.get("keepalive"):
+            # the gated message is the keepalive itself, whatever was in flight; while need_rekey is set
+            # Packetizer._check_keepalive must not run the callback at all
+            key = "keepalive-fires-while-need-rekey-pending" if obs["init"] == "threshold" else KNOWN_GATED[0]
         ctx.fail(key, WATCH_TEXT(key, "the transport thread entered _send_user_message while clear_to_send was clear "
                                       "(handling type %d)" % p),
                  case=case, expected="the transport thread never waits on clear_to_send",
@@ -831,7 +845,7 @@ def WATCH_TEXT(key, default):
 def model_case(obs):
     """(init, ptype, replies, keepalive) for run_cell in coq/Model/C11.v"""
     return ({"explicit": 0, "threshold": 1, "back2back": 2}[obs["init"]], obs["ptype"], bool(obs["replies"]),
-            obs["cell"] == "keepalive-tick", bool(obs.get("ulocked")), bool(obs.get("nka")))
+            bool(obs.get("keepalive")), bool(obs.get("ulocked")), bool(obs.get("nka")))
 
 
 def _gen_tables(repo):
@@ -844,14 +858,14 @@ def _gen_tables(repo):
     return mod.tables(repo)
 
 
-def guarded_cell(ctx, role, name, init, rng, op="send", switch="kexinit", split=0):
+def guarded_cell(ctx, role, name, init, rng, op="send", switch="kexinit", split=0, keepalive=False):
     box = {}
 
     def go():
         if init == "back2back":
             box["obs"] = run_back2back(role, rng)
         else:
-            box["obs"] = run_cell(role, name, init, rng, op=op, switch=switch, split=split)
+            box["obs"] = run_cell(role, name, init, rng, op=op, switch=switch, split=split, keepalive=keepalive)
 
     for attempt in (0, 1):
         st, v = with_watchdog(go, 60)
@@ -881,7 +895,8 @@ def run(ctx):
                 "thread calls shutdown_write() / close() while the peer's WINDOW_ADJUST / EOF / CLOSE / data for the "
                 "channel is in flight; 4 cells with the user thread stopped between gate and write when the exchange "
                 "starts; 2 cells with two renegotiate_keys back to back, the second inside the first one's "
-                "_parse_newkeys; 6 cells (12 thorough) where the held traffic arrives in two segments 0.25 s apart split at "
+                "_parse_newkeys; 2 cells (8 thorough) with keepalives enabled and a packet arriving in two pieces 0.7 s "
+                "apart during the exchange; 6 cells (12 thorough) where the held traffic arrives in two segments 0.25 s apart split at "
                 "byte 1..7 (thorough also 9/17/33); quick tier takes every kind once per role with the initiation mode drawn from "
                 "the seed, thorough takes all combinations twice; a cell is non-trivial when something was in "
                 "flight or a user send was queued")
@@ -923,8 +938,15 @@ def run(ctx):
             for init in (("threshold", "explicit") if ctx.thorough else ("threshold",)):
                 k = rng.randrange(1, 8) if not ctx.thorough or rng.random() < 0.7 else rng.choice([9, 17, 33])
                 plan.append((role, name, init, "send", "kexinit", k))
+    plan = [x + (False,) for x in plan]
     for role in ("client", "server"):
-        plan.append((role, "nothing", "back2back", "send", "completion", 0))
+        plan.append((role, "nothing", "back2back", "send", "completion", 0, False))
+        # keepalives enabled + re-key + a packet of the exchange (or the in-flight message) arriving in two pieces
+        # with a gap longer than the read timeout and the keepalive interval.  Threshold-triggered: the guard in
+        # _check_keepalive must keep the tick away; explicit (thorough): the registered keepalive finding.
+        for name in (("nothing", "data") if ctx.thorough else (rng.choice(["nothing", "data"]),)):
+            for init in (("threshold", "explicit") if ctx.thorough else ("threshold",)):
+                plan.append((role, name, init, "send", "kexinit", rng.randrange(1, 8), True))
     # which user operations send while holding self.lock, according to the translator (none on a sound tree)
     locked_ops = set()
     nka = None
@@ -944,20 +966,20 @@ def run(ctx):
     from concurrent.futures import ThreadPoolExecutor
 
     def one(item):
-        i, (role, name, init, op, switch, split) = item
+        i, (role, name, init, op, switch, split, keepalive) = item
         return guarded_cell(ctx, role, name, init, random.Random("C11-%d-cell-%d" % (ctx.seed, i)), op=op,
-                            switch=switch, split=split)
+                            switch=switch, split=split, keepalive=keepalive)
 
     with ThreadPoolExecutor(max_workers=3) as ex:
         observed = list(ex.map(one, list(enumerate(plan))))
-    for (role, name, init, op, switch, split), obs in zip(plan, observed):
+    for (role, name, init, op, switch, split, keepalive), obs in zip(plan, observed):
         if obs is None:
             continue
         obs["ulocked"] = op in locked_ops
         obs["nka"] = nka if nka is not None else not (obs["init"] == "back2back" and obs["offenders"])
-        ctx.count((role, name, init, op, switch, split, tuple(obs["out"])), nontrivial=True,
+        ctx.count((role, name, init, op, switch, split, keepalive, tuple(obs["out"])), nontrivial=True,
                   kind="%s-%s-%s%s%s" % (name, op, init, "-presend" if switch == "presend" else "",
-                                         "-split" if split else ""))
+                                         "-split" if split else "") + ("-keepalive" if keepalive else ""))
         judge(ctx, obs)
         results.append(obs)
     ctx.log("%d cells in %.1fs" % (len(results), time.time() - t0))
@@ -979,10 +1001,11 @@ def run(ctx):
         types[0] = set(tab["keepalive"]["types"])
         for o in results:
             seen = set(t for t, tt in o["offenders"] if tt) | set(t for t, _ in o["tt_waited"])
-            if not seen <= types.get(o["ptype"], set()):
+            allowed = types.get(o["ptype"], set()) | (types[0] if o.get("keepalive") else set())
+            if not seen <= allowed:
                 ctx.disagree("a handler emitted a message type the generated table does not list for it",
                              case={"role": o["role"], "cell": o["cell"], "init": o["init"]},
-                             model=sorted(types.get(o["ptype"], set())), impl=sorted(seen))
+                             model=sorted(allowed), impl=sorted(seen))
     except Exception as e:      # the translator failing is already reported by ctx.prove()
         ctx.notes.append("table cross-check skipped: %r" % (e,))
     for o in results:
@@ -999,7 +1022,8 @@ def replay(ctx, rep):
     ctx.prove()
     for k in range(2):
         obs = guarded_cell(ctx, case["role"], case["cell"], case["init"], ctx.rng, op=case.get("op", "send"),
-                           switch=case.get("switch", "kexinit"), split=case.get("split", 0))
+                           switch=case.get("switch", "kexinit"), split=case.get("split", 0),
+                           keepalive=case.get("keepalive", False))
         if obs is not None:
             ctx.count(("replay", k, tuple(obs["out"])))
             judge(ctx, obs)
